@@ -32,13 +32,17 @@ ConvertFails(t) ==
   If(t.post = t.pre, "other-records-changed")
   \cup (IF ~r.ok THEN If(t.err # "OK", "conversion-error-reported")
         ELSE If(t.err = "OK", "err")
+             \cup If(t.err # "OK" \/ t.finite, "converted-amount-finite")
              \cup If(t.err # "OK" \/ t.back = t.q.m, "round-trip")
              \cup If(t.err # "OK" \/ ~Exact(t.q.unit, t.unit2) \/ t.fwd = r.m, "converted-amount"))
 
 Fails(t) ==
   IF t.panic # "" THEN {"panic"}
   ELSE IF t.op = "New" THEN
-         If(t.rpanic = "", "configured-model-unreadable")
+         \* not about the code: the specification's unit alphabet must be the enum (python turns "spec-" clauses
+         \* into an inconclusive run)
+         If({ t.units[k] : k \in 1..Len(t.units) } = Units, "spec-unit-alphabet-is-not-the-enum")
+         \cup If(t.rpanic = "", "configured-model-unreadable")
          \cup If(t.post.cons = t.pre.cons, "consumables-where-configured")
          \cup If(t.rpanic # "" \/ t.post.inv = t.pre.inv, "stock-where-configured")
   ELSE IF t.rpanic # "" THEN {"state-unreadable"}
